@@ -50,7 +50,47 @@ def const_block(workers, channels, jobids, clients, *, maxjobs, maxtime, restart
 
 
 # ----------------------------------------------------------------------------- generation
+def gen_priority_stress(rng, length, *, restart=False, **_):
+    """Directed profile: several jobs with mixed priorities in one or two channels, some finished
+    early (kill / timeout / foreign finish) while queued, then pulls one after the other - the
+    order in which they come out is what is being looked at."""
+    ops = []
+    ids = []
+    nadd = rng.randint(3, 4)
+    chans = [rng.choice(CHANNELS)] if rng.random() < 0.6 else CHANNELS
+    for k in range(nadd):
+        i = JOBIDS[k]
+        ids.append(i)
+        ops.append({"op": "add", "id": i, "ch": rng.choice(chans), "prio": rng.choice([0, 1, 1]),
+                    "tmo": rng.choice([1, 100, 100]), "ttl": 100})
+        if rng.random() < 0.25:
+            ops.append({"op": "runloop"})
+    for _ in range(rng.randint(0, 2)):
+        r = rng.random()
+        if r < 0.5:
+            ops.append({"op": "kill", "k": "admin", "id": rng.choice(ids)})
+        elif r < 0.75:
+            ops.append({"op": "tick"})
+        else:
+            ops.append({"op": "add", "id": rng.choice(ids), "ch": rng.choice(chans), "prio": rng.choice([0, 1]), "tmo": 100, "ttl": 100})
+    if restart and rng.random() < 0.5:
+        ops.append({"op": "restart"})
+    ws = list(WORKERS)
+    while len(ops) < length:
+        w = rng.choice(ws)
+        ops.append({"op": "pull", "w": w, "chs": rng.choice([[], [], [chans[0]]])})
+        ops.append({"op": "runloop"})
+        if rng.random() < 0.3:
+            ops.append({"op": "finish", "w": w, "id": rng.choice(ids), "err": "none"})
+        if rng.random() < 0.15:
+            ops.append({"op": "disconnect", "w": w})
+            ws = [x for x in ws if x != w] or list(WORKERS)
+    return ops
+
+
 def gen_sequence(rng, length, *, restart=False, wait=False, extras=False, reconnect=True):
+    if rng.random() < 0.3:
+        return gen_priority_stress(rng, length, restart=restart)
     """A legal operation sequence (legality judged on a light shadow of connection states; the
     shadow never decides a verdict - an illegal op would merely be rejected as machinery error)."""
     ops = []
